@@ -487,8 +487,21 @@ where
                         // A yield made in a system call state carries its wake-up time in
                         // the state itself; consume the request it pushed so that it can
                         // not leak into a later yield on this thread.
-                        _ = Suspender::<Yield, Param>::is_cancel();
+                        let cancel = Suspender::<Yield, Param>::is_cancel();
                         _ = Suspender::<Yield, Param>::timestamp();
+                        if cancel {
+                            // The cancel request (signal handler) reached the coroutine while
+                            // it was in a system call state. It must never be resumed again
+                            // (`Suspender::cancel` does not return), so walk it to Cancelled.
+                            _ = self.syscall(
+                                y,
+                                syscall,
+                                crate::common::constants::SyscallState::Executing,
+                            );
+                            self.running()?;
+                            self.cancel()?;
+                            return Ok(CoroutineState::Cancelled);
+                        }
                         Ok(CoroutineState::Syscall(y, syscall, state))
                     }
                     _ => Err(Error::other(format!(
